@@ -11,7 +11,8 @@ RULE = ("plays as nested dict/list/scalar trees (strings with both kinds of quot
         "one evaluation = one (play, edit) pair: change / insert / delete / reorder / re-nest / retype (1 <-> '1' <-> 1.0 "
         "<-> True, None <-> 'None') of a key or value outside the excluded paths, edits confined to excluded elements, and "
         "crafted edits that try to re-create the other play's serialised text (merge two entries into one key, split a "
-        "string into list items, move a quote across a key/value boundary, text that looks like a serialised mapping); the "
+        "string into list items, move a quote across a key/value boundary, text that looks like a serialised mapping, control "
+        "characters vs escape texts, a key repeated in the YAML text); the "
         "digests of exclude_dynamic_elements(p) and (p') must differ iff the non-excluded parts differ as typed trees "
         "(own 10-line exclusion model); plus the error clauses through verify_play / verify with GnuPG stubbed; "
         "non-trivial = the edit is effective outside the excluded part or crafted; distinct by case hash")
